@@ -1291,7 +1291,8 @@ func (client *client) disconnectHandler(dis *packets.Disconnect) *codes.Error {
 	}
 	client.disconnect = dis
 	// 不发送will message
-	client.cleanWillFlag = true
+	// the will is discarded unless the client asked for it to be published (Disconnect with Will Message, 0x04).
+	client.cleanWillFlag = dis.Code != codes.DisconnectWithWillMessage
 	return nil
 }
 
